@@ -26,6 +26,9 @@ type ruleDef struct {
 
 var registry = map[string]*propDef{}
 
+// curTier is the tier of the running check (rules that only run in the thorough tier consult it).
+var curTier = "quick"
+
 func register(id string, deep bool, rules ...ruleDef) {
 	registry[id] = &propDef{ID: id, Deep: deep, Rules: rules}
 }
@@ -105,7 +108,7 @@ func main() {
 	}
 
 	if *dump != "" {
-		c, err := Load(LoadCfg{Name: "dump", Dir: *repo, Deep: *deepFlag, Overlay: ov})
+		c, err := Load(LoadCfg{Name: "dump", Dir: *repo, Deep: *deepFlag, Overlay: ov, BuildExtra: stdSummaryPkgs})
 		if err != nil {
 			fmt.Println(err)
 			os.Exit(2)
@@ -146,6 +149,7 @@ func main() {
 	}
 	for _, cfg := range configsFor(*tier, deep, *repo) {
 		cfg.Overlay = ov
+		curTier = *tier
 		if wantRefs {
 			cfg.Refs = upstreamRefs()
 		}
